@@ -347,3 +347,79 @@ pub proof fn poly_distr<C: Semiring + Copy>(a: Polynomial<C>, b: Polynomial<C>, 
         sum_add(f, g, MAX_COEFFS as int);
     }
 }
+
+/// the inner sum of the re-associated triple product: sum_{i<N} B(i-j) * C(k-i) is the (k-j)-th coefficient of b*c
+pub proof fn lemma_inner_shift<C: Semiring + Copy>(b: Polynomial<C>, c: Polynomial<C>, bc: Polynomial<C>, k: int, j: int)
+    requires csr::<C>(), b.nf(), c.nf(), b.mul_def(c, bc), 0 <= k < MAX_COEFFS, 0 <= j < MAX_COEFFS,
+    ensures sum(|i: int| b.cf()(i - j).mul_spec(c.cf()(k - i)), MAX_COEFFS as int) == bc.cf()(k - j),
+{
+    let n = MAX_COEFFS as int;
+    let inner = |i: int| b.cf()(i - j).mul_spec(c.cf()(k - i));
+    let h = |m: int| b.cf()(m).mul_spec(c.cf()(k - j - m));
+    assert forall|m: int| m < 0 implies #[trigger] h(m) == C::zero_s() by { c_mul_zero(c.cf()(k - j - m)); }
+    sum_shift(h, j, n);
+    let hs = |i: int| h(i - j);
+    assert forall|i: int| 0 <= i < n implies #[trigger] inner(i) == hs(i) by {}
+    sum_cong(inner, hs, n);
+    // now sum(inner, n) == sum(h, n - j)
+    lemma_mul_cf(b, c, bc);
+    if k - j >= 0 {
+        assert forall|m: int| n - j <= m < n implies #[trigger] h(m) == C::zero_s() by { c_mul_zero(b.cf()(m)); }
+        sum_ext(h, n - j, n);
+        assert(bc.cf()(k - j) == prod_cf(b, c, k - j));
+        sum_cong(h, |i: int| b.cf()(i).mul_spec(c.cf()(k - j - i)), n);
+    } else {
+        assert forall|m: int| 0 <= m < n - j implies #[trigger] h(m) == C::zero_s() by { c_mul_zero(b.cf()(m)); }
+        sum_zero(h, n - j);
+    }
+}
+
+pub proof fn poly_mul_assoc<C: Semiring + Copy>(a: Polynomial<C>, b: Polynomial<C>, c: Polynomial<C>, ab: Polynomial<C>, bc: Polynomial<C>, r1: Polynomial<C>, r2: Polynomial<C>)
+    requires csr::<C>(), a.nf(), b.nf(), c.nf(), a.mul_def(b, ab), ab.mul_def(c, r1), b.mul_def(c, bc), a.mul_def(bc, r2),
+    ensures r1.peq(r2),
+{
+    let n = MAX_COEFFS as int;
+    lemma_mul_cf(a, b, ab); lemma_mul_cf(ab, c, r1); lemma_mul_cf(b, c, bc); lemma_mul_cf(a, bc, r2);
+    assert forall|k: int| 0 <= k < MAX_COEFFS implies r1.coefficients@[k] == r2.coefficients@[k] by {
+        let g = |i: int, j: int| a.cf()(j).mul_spec(b.cf()(i - j)).mul_spec(c.cf()(k - i));
+        let lhs = |i: int| ab.cf()(i).mul_spec(c.cf()(k - i));
+        let rows = |i: int| sum(|j: int| g(i, j), n);
+        // step 1: each term of the outer sum is a row sum of g
+        assert forall|i: int| 0 <= i < n implies #[trigger] lhs(i) == rows(i) by {
+            let f = |j: int| a.cf()(j).mul_spec(b.cf()(i - j));
+            sum_mul_right(f, c.cf()(k - i), n);
+            assert(ab.cf()(i) == prod_cf(a, b, i));
+            sum_cong(|j: int| f(j).mul_spec(c.cf()(k - i)), |j: int| g(i, j), n);
+        }
+        sum_cong(lhs, rows, n);
+        // step 2: exchange the sums
+        sum_fubini(g, n, n);
+        let cols = |j: int| sum(|i: int| g(i, j), n);
+        let rhs = |j: int| a.cf()(j).mul_spec(bc.cf()(k - j));
+        // steps 3, 4: each column sum is a(j) times the (k-j)-th coefficient of b*c
+        assert forall|j: int| 0 <= j < n implies #[trigger] cols(j) == rhs(j) by {
+            let inner = |i: int| b.cf()(i - j).mul_spec(c.cf()(k - i));
+            let colf = |i: int| g(i, j);
+            let scaled = |i: int| a.cf()(j).mul_spec(inner(i));
+            assert forall|i: int| 0 <= i < n implies #[trigger] colf(i) == scaled(i) by {
+                c_mul_assoc(a.cf()(j), b.cf()(i - j), c.cf()(k - i));
+            }
+            sum_cong(colf, scaled, n);
+            sum_mul_left(a.cf()(j), inner, n);
+            lemma_inner_shift(b, c, bc, k, j);
+        }
+        sum_cong(cols, rhs, n);
+        assert(r1.coefficients@[k] == prod_cf(ab, c, k));
+        assert(r2.coefficients@[k] == prod_cf(a, bc, k));
+        assert(prod_cf(ab, c, k) == sum(lhs, n));
+        assert(prod_cf(a, bc, k) == sum(rhs, n));
+    }
+}
+
+/// closure: the results of the operators are again in normal form, so the laws compose over any expression
+pub proof fn poly_closed<C: Semiring + Copy>(a: Polynomial<C>, b: Polynomial<C>, s: Polynomial<C>, p: Polynomial<C>)
+    requires csr::<C>(), a.nf(), b.nf(), a.add_def(b, s), a.mul_def(b, p),
+    ensures s.nf(), p.nf(),
+{
+    lemma_add_nf(a, b, s); lemma_mul_cf(a, b, p);
+}
